@@ -130,6 +130,13 @@ CLAIMED["C25"] = dict(
     ref="DESIGN.md 4/C25",
 )
 
+CLAIMED["C17"] = dict(
+    technique="override/guard discipline check between ValueSet and AnyValue (field reads on self need an override, on another operand a dominating not-AnyValue test); definitional-agreement check of filter_constraint_table / is_allowed_combination / allowed_values_for; must-store analysis of assert_level_constraint; cell-dispatch and indexing shape of read_constraints_from_csv",
+    text="Set algebra over runtime values and random tables is behaviour and is not decided. Decided: the wildcard never exposes fields it lacks; membership/union/range-merge have the inclusive, both-operand, overlap-merging shape; the three table queries are defined through one another so that incremental and whole-dictionary checks agree; the validator records every accepted value in the dictionary the next query is filtered by; ditto/any/value/range cells are dispatched and indexed per row and column as documented.",
+    note="Thin. Not decided: arithmetic of merging on concrete values; negative integers (not expressible in the CSV format).",
+    ref="DESIGN.md 4/C17",
+)
+
 CLAIMED["C09"] = dict(
     technique="must/may event flow over picture_decode (ordering of inverse transform, clip, offset before the output callback; single invocation; argument wiring) and call-site placement of picture_decode in parse_sequence; completion-flag provenance",
     text="Sample ranges and dimensions come from spec-pinned arithmetic and are not decided. Decided on all paths: what reaches the output callback has been transformed, clipped and offset in that order; the callback runs at most once per decoded picture with the right arguments; the picture number is the coded one; a picture is decoded exactly once per picture data unit and once per completed fragmented picture.",
